@@ -703,7 +703,8 @@ inductive Step
   | setTimeScale
   | startThread (t : String)
   | controlRun
-  | joinThread (t : String)
+  | controlShutdown               -- launch()'s `finally`: tell the background threads to stop …
+  | joinThread (t : String)       -- … then join each thread that is alive
   | resetTimeScale
   | finalSave
 deriving DecidableEq, Repr
@@ -714,7 +715,7 @@ def prologueSteps (hasSaved : Bool) : List Step :=
     [.newThread "control", .newThread "inference", .newThread "training"]
 
 def runSteps : List Step :=
-  [.setTimeScale, .startThread "inference", .startThread "training", .controlRun,
+  [.setTimeScale, .startThread "inference", .startThread "training", .controlRun, .controlShutdown,
    .joinThread "inference", .joinThread "training", .resetTimeScale, .finalSave]
 
 /-- The prologue of `launch()`: register, load the saved state if one is given, construct the
